@@ -54,6 +54,7 @@ CHECKS["C19"] = {
     "assumptions": ["before/after oracles use the acq_rel logical clock and are disabled in TSan builds (TSan judges the release/acquire pair there)",
                     "the line of a trigger that is move-assigned over is not judged (unspecified)"],
     "runs": [
+        {"variant": "plain", "engine": "serial", "stale": 1, "procs": 2, "rounds_quick": 3000, "rounds_thorough": 40000},
         {"variant": "asan", "engine": "stress", "procs": 4, "rounds_quick": 3000, "rounds_thorough": 40000},
         {"variant": "plain", "engine": "serial", "procs": 4, "rounds_quick": 5000, "rounds_thorough": 100000},
         {"variant": "tsan", "engine": "stress", "procs": 4, "rounds_quick": 1500, "rounds_thorough": 20000},
@@ -117,6 +118,7 @@ CHECKS["C03"] = {
             "a read and a modify overlapped in logical time; distinct = (program, schedule signature, observed snapshots).",
     "assumptions": LOCKFREE_ASSUME,
     "runs": [
+        {"variant": "plain", "engine": "serial", "stale": 1, "procs": 2, "rounds_quick": 4000, "rounds_thorough": 60000},
         {"variant": "plain", "engine": "serial", "procs": 5, "rounds_quick": 8000, "rounds_thorough": 150000},
         {"variant": "plain", "engine": "stress", "procs": 3, "rounds_quick": 5000, "rounds_thorough": 100000},
         {"variant": "plain", "engine": "stress", "tso": 1, "procs": 2, "rounds_quick": 4000, "rounds_thorough": 80000},
@@ -158,6 +160,7 @@ CHECKS["C05"] = {
             "reclaimed while another handle was still alive; distinct = (program, schedule signature).",
     "assumptions": ["handles are never copied (client misuse, outside the property)", "bookkeeping records are recognised as objects constructed from a single pointer argument"],
     "runs": [
+        {"variant": "plain", "engine": "serial", "stale": 1, "procs": 2, "rounds_quick": 3000, "rounds_thorough": 40000},
         {"variant": "asan", "engine": "serial", "procs": 6, "rounds_quick": 3000, "rounds_thorough": 50000},
         {"variant": "asan", "engine": "stress", "procs": 4, "rounds_quick": 2500, "rounds_thorough": 40000},
         {"variant": "plain", "engine": "serial", "procs": 4, "rounds_quick": 8000, "rounds_thorough": 150000},
@@ -199,6 +202,7 @@ CHECKS["C09"] = {
             "condition variable; distinct = (program, schedule signature).",
     "assumptions": CV_ASSUME + ["barriers whose threshold reaches zero are not exercised"],
     "runs": [
+        {"variant": "plain", "engine": "serial", "stale": 1, "procs": 2, "rounds_quick": 3000, "rounds_thorough": 40000},
         {"variant": "plain", "engine": "serial", "procs": 6, "rounds_quick": 6000, "rounds_thorough": 120000},
         {"variant": "plain", "engine": "stress", "procs": 4, "rounds_quick": 2500, "rounds_thorough": 50000},
         {"variant": "tsan", "engine": "stress", "procs": 2, "rounds_quick": 1000, "rounds_thorough": 20000},
@@ -215,6 +219,7 @@ CHECKS["C10"] = {
             "(program, schedule signature, number of condition waits).",
     "assumptions": CV_ASSUME,
     "runs": [
+        {"variant": "plain", "engine": "serial", "stale": 1, "procs": 2, "rounds_quick": 4000, "rounds_thorough": 60000},
         {"variant": "plain", "engine": "serial", "procs": 6, "rounds_quick": 8000, "rounds_thorough": 150000},
         {"variant": "plain", "engine": "stress", "procs": 4, "rounds_quick": 3000, "rounds_thorough": 60000},
         {"variant": "tsan", "engine": "stress", "procs": 2, "rounds_quick": 1500, "rounds_thorough": 20000},
@@ -232,6 +237,7 @@ CHECKS["C11"] = {
             "thread terminates (no lost wake-up). Non-trivial: some waiter blocked in a condition variable; distinct = (program, schedule, waits).",
     "assumptions": CV_ASSUME + ["the variable is not re-activated while waiters of the previous cycle are still blocked (as the property states)"],
     "runs": [
+        {"variant": "plain", "engine": "serial", "stale": 1, "procs": 2, "rounds_quick": 2500, "rounds_thorough": 40000},
         {"variant": "plain", "engine": "serial", "procs": 6, "rounds_quick": 5000, "rounds_thorough": 100000},
         {"variant": "plain", "engine": "stress", "procs": 4, "rounds_quick": 1500, "rounds_thorough": 30000},
         {"variant": "tsan", "engine": "stress", "procs": 2, "rounds_quick": 800, "rounds_thorough": 15000},
@@ -249,6 +255,7 @@ CHECKS["C12"] = {
             "Non-trivial: a traversal overlapped a mutation in logical time (seq: >= 6 steps); distinct = (program, schedule, final contents).",
     "assumptions": ["real-time oracles (stable set, cross-thread push order) use the acq_rel logical clock and are disabled in TSan builds"],
     "runs": [
+        {"variant": "plain", "engine": "serial", "stale": 1, "procs": 2, "rounds_quick": 3000, "rounds_thorough": 40000},
         {"variant": "asan", "engine": "off", "mode": "seq", "procs": 2, "rounds_quick": 4000, "rounds_thorough": 60000},
         {"variant": "plain", "engine": "serial", "procs": 6, "rounds_quick": 8000, "rounds_thorough": 150000},
         {"variant": "plain", "engine": "stress", "procs": 3, "rounds_quick": 4000, "rounds_thorough": 80000},
@@ -404,6 +411,9 @@ for _p in _C07_RERUN:
     if _m:
         _r["mode"] = _m
     _c07_runs.append(_r)
+for _p, _rq in (("C03", 3000), ("C05", 2000), ("C12", 2000), ("C19", 2000), ("C10", 3000), ("C11", 2000)):
+    _c07_runs.append({"src": _p + ".cpp", "variant": "plain", "engine": "serial", "stale": 1, "procs": 1, "rounds_quick": _rq, "rounds_thorough": _rq * 15, "x": {"as": "C07"}})
+_c07_runs.append({"variant": "plain", "engine": "serial", "stale": 1, "procs": 2, "rounds_quick": 3000, "rounds_thorough": 40000})
 for _p, _rq in (("C03", 2500), ("C04", 2000), ("C05", 2000), ("C19", 2000)):
     _c07_runs.append({"src": _p + ".cpp", "variant": "plain", "engine": "stress", "tso": 1, "procs": 1, "rounds_quick": _rq, "rounds_thorough": _rq * 15, "x": {"as": "C07"}})
     _c07_runs.append({"src": _p + ".cpp", "variant": "plain", "engine": "serial", "tso": 1, "procs": 1, "rounds_quick": _rq, "rounds_thorough": _rq * 15, "x": {"as": "C07"}})
@@ -415,14 +425,18 @@ CHECKS["C07"] = {
             "-> next functor, cow commit -> snapshot, rcu node construct -> traverse -> reclaim, latch arrive -> wait incl. the unlocked fast "
             "path, trigger/activate -> wait, barrier generations, deferred queue, DelayedObjects promise -> future, trip wire, shared/ordered "
             "handles, DelayedDestructor add -> reap) under ThreadSanitizer with delay injection; (2) the stress workloads of C01-C06, C08-C12, "
-            "C15-C19 re-run in the TSan build; (3) lr / cow / rcu / trip-wire workloads and the probes with the TSO store-buffer amplifier. "
+            "C15-C19 re-run in the TSan build; (3) lr / cow / rcu / trip-wire workloads and the probes with the TSO store-buffer amplifier; "
+            "(4) lr / rcu / trip-wire / latch / trigger workloads and the probes in the serial engine with the stale-load layer (a load whose "
+            "source-level order is weaker than seq_cst may be answered with any store that coherence and happens-before - tracked with vector "
+            "clocks over shim atomics, mutexes and harness synchronisation - still allow). "
             "A TSan report block (data race, mutex misuse, heap-use-after-free), a torn or stale plain payload, or any monitor violation under "
             "the amplifier is a violation. Every round is non-trivial (each exercises a cross-thread hand-over); distinct = (workload, round / "
             "schedule signature).",
     "assumptions": ["ThreadSanitizer decides happens-before only for executions that occur and for synchronisation it intercepts; the shim "
                     "implements timed locking by polling try_lock, so pthread_*_clocklock (not intercepted by this TSan) is never used",
                     TSO_NOTE,
-                    "seq_cst loads / RMWs weakened to acquire/relaxed while the paired store stays seq_cst change nothing on x86 nor in TSan's "
-                    "model: out of reach for this family on this hardware (DESIGN.md 5)"],
+                    "weakened loads are covered by the stale-load layer only in the serial engine and only in harnesses whose threads "
+                    "communicate through shim primitives and harness synchronisation (lr, rcu, trip wire, latch, trigger, barrier); weakened RMW "
+                    "orders and fences, and cow_guarded / futures (shared_ptr and promise internals are not modelled), stay out of reach"],
     "runs": _c07_runs,
 }
